@@ -38,6 +38,12 @@ type Case struct {
 	Callers []Caller `json:"callers"`
 	Events  []Event  `json:"events"` // must contain one ack per caller and one reply per wait caller (generator guarantees it)
 	DelayUs []int    `json:"delay_us"`
+	// PollUs > 0: the two inbox consumers poll - every ReceiveCall / ReceiveReplyCall gets its own context that ends after that
+	// many microseconds; a context error means "poll again", anything else while the connection is open is wrong (seeded C16/m6)
+	PollUs int `json:"poll_us,omitempty"`
+	// Abandoned: that many extra SendCall callers give up after 1 ms; their (negative) acks are sent only after the patient callers
+	// have started - a late ack for a call nobody waits for must not reach another caller (seeded change C16/m5)
+	Abandoned int `json:"abandoned,omitempty"`
 }
 
 type outcome struct {
@@ -52,9 +58,16 @@ func run(c Case, k *ev.Case) *ev.Failure {
 	defer w.Dispose()
 	var mu sync.Mutex
 	calls := map[string]*message.UpstreamCall{} // marker -> call
+	var abandoned []*message.UpstreamCall        // calls whose callers gave up after 1 ms
 	arrived := make(chan struct{}, 256)
 	w.Broker.Hook = func(inc *sim.Inc, e *sim.Entry) sim.Verdict {
 		if uc, ok := e.Msg.(*message.UpstreamCall); ok {
+			if strings.HasPrefix(string(uc.Payload), "ab") {
+				mu.Lock()
+				abandoned = append(abandoned, uc)
+				mu.Unlock()
+				return sim.Handled // acknowledged (negatively) much later
+			}
 			mu.Lock()
 			calls[string(uc.Payload)] = uc
 			mu.Unlock()
@@ -72,6 +85,14 @@ func run(c Case, k *ev.Case) *ev.Failure {
 		return ev.Failf("harness", "connect: %v", err)
 	}
 	defer sim.Call(5*time.Second, func() { conn.Close(context.Background()) })
+	// callers that give up at once, one after the other, before anybody else calls
+	for i := 0; i < c.Abandoned; i++ {
+		sim.Call(5*time.Second, func() {
+			ctx, cancel := sim.Ctx(time.Millisecond)
+			defer cancel()
+			conn.SendCall(ctx, &iscp.UpstreamCall{DestinationNodeID: "dst", Name: "n", Type: "t", Payload: []byte(fmt.Sprintf("ab%03d", i))})
+		})
+	}
 	n := len(c.Callers)
 	outs := make([]outcome, n)
 	var wg sync.WaitGroup
@@ -102,14 +123,28 @@ func run(c Case, k *ev.Case) *ev.Failure {
 	var rmu sync.Mutex
 	var gotCalls []*iscp.DownstreamCall
 	var gotReplies []*iscp.DownstreamReplyCall
+	pollErr := ""
 	rctx, rcancel := context.WithCancel(context.Background())
 	var rwg sync.WaitGroup
 	rwg.Add(2)
 	go func() {
 		defer rwg.Done()
 		for {
-			dc, err := conn.ReceiveCall(rctx)
+			pctx, pc := rctx, context.CancelFunc(func() {})
+			if c.PollUs > 0 {
+				pctx, pc = context.WithTimeout(rctx, time.Duration(c.PollUs)*time.Microsecond)
+			}
+			dc, err := conn.ReceiveCall(pctx)
+			pc()
 			if err != nil {
+				if c.PollUs > 0 && rctx.Err() == nil && (errors.Is(err, context.DeadlineExceeded) || errors.Is(err, context.Canceled)) {
+					continue
+				}
+				if rctx.Err() == nil {
+					rmu.Lock()
+					pollErr = fmt.Sprintf("ReceiveCall on an open connection returned %v", err)
+					rmu.Unlock()
+				}
 				return
 			}
 			rmu.Lock()
@@ -120,8 +155,21 @@ func run(c Case, k *ev.Case) *ev.Failure {
 	go func() {
 		defer rwg.Done()
 		for {
-			rc, err := conn.ReceiveReplyCall(rctx)
+			pctx, pc := rctx, context.CancelFunc(func() {})
+			if c.PollUs > 0 {
+				pctx, pc = context.WithTimeout(rctx, time.Duration(c.PollUs)*time.Microsecond)
+			}
+			rc, err := conn.ReceiveReplyCall(pctx)
+			pc()
 			if err != nil {
+				if c.PollUs > 0 && rctx.Err() == nil && (errors.Is(err, context.DeadlineExceeded) || errors.Is(err, context.Canceled)) {
+					continue
+				}
+				if rctx.Err() == nil {
+					rmu.Lock()
+					pollErr = fmt.Sprintf("ReceiveReplyCall on an open connection returned %v", err)
+					rmu.Unlock()
+				}
 				return
 			}
 			rmu.Lock()
@@ -139,6 +187,17 @@ func run(c Case, k *ev.Case) *ev.Failure {
 		}
 	}
 	inc := w.Broker.CurrentInc()
+	// the late (negative) acks of the abandoned calls arrive now, while the patient callers wait for theirs
+	mu.Lock()
+	late := append([]*message.UpstreamCall(nil), abandoned...)
+	mu.Unlock()
+	for _, uc := range late {
+		inc.Send(&message.UpstreamCallAck{CallID: uc.CallID, ResultCode: message.ResultCode(33), ResultString: "late-nack-for-" + string(uc.Payload)})
+	}
+	if len(late) > 0 {
+		k.Label("late-acks-for-abandoned-calls")
+		time.Sleep(300 * time.Microsecond)
+	}
 	mu.Lock()
 	byCaller := make([]*message.UpstreamCall, n)
 	ids := map[string]int{}
@@ -249,6 +308,9 @@ func run(c Case, k *ev.Case) *ev.Failure {
 	}
 	rmu.Lock()
 	defer rmu.Unlock()
+	if pollErr != "" {
+		return ev.Failf("C16.4 inbox-error", "%s", pollErr)
+	}
 	if len(gotCalls) != len(emittedCalls) {
 		return ev.Failf("C16.4 inbox-calls", "the broker sent %d calls, ReceiveCall returned %d", len(emittedCalls), len(gotCalls))
 	}
@@ -299,6 +361,8 @@ func gen(t *rapid.T) Case {
 	}
 	c.Events = rapid.Permutation(evs).Draw(t, "order")
 	c.DelayUs = rapid.SliceOfN(rapid.SampledFrom([]int{0, 0, 0, 30, 300}), 1, 5).Draw(t, "delays")
+	c.PollUs = rapid.SampledFrom([]int{0, 0, 1, 40, 400}).Draw(t, "poll")
+	c.Abandoned = rapid.SampledFrom([]int{0, 0, 1, 3}).Draw(t, "abandoned")
 	return c
 }
 
